@@ -212,3 +212,52 @@ fn gc_to_span_records_finished_then_open() {
     kani::cover!(nested);
     kani::cover!(!nested && et > b2 + 1000);
 }
+
+// ------------------------------------------------------------------------------------------------
+// NOT REGISTERED: symbolic execution does not finish in 25 min (drop glue / iterator loops of
+// SpanCollection); kept for a stronger engine.
+// C02 / C18 (a first piece of the collector's conversion): postprocess_span_collection on ONE
+// thread-safe span (amend_span) followed by ONE local span set (amend_local_span), no events or
+// properties (the dangling map stays empty): trace id and parent stamped from the token, span id
+// kept, begin converted, duration = end - begin.
+#[kani::proof]
+#[kani::unwind(4)]
+#[kani::stub(std::hash::RandomState::new, random_state_stub)]
+fn gc_postprocess_span_then_local_set() {
+    static N_A: &str = "a";
+    unsafe {
+        fastant::CLOCK = kani::any();
+        kani::assume(fastant::CLOCK >= 10 && fastant::CLOCK < (1u64 << 40));
+        fastant::ANCHOR_UNIX = 1u64 << 60;
+    }
+    let now = unsafe { fastant::CLOCK };
+    let (b1, e1, b2, e2): (u64, u64, u64, u64) = (kani::any(), kani::any(), kani::any(), kani::any());
+    kani::assume(1 <= b1 && b1 <= e1 && e1 <= now && 1 <= b2 && b2 <= e2 && e2 <= now);
+    let i1 = SpanId(kani::any());
+    let i2 = SpanId(kani::any());
+    let mut r1 = RawSpan::begin_with(i1, SpanId::default(), Instant(b1), N_A, RawKind::Span);
+    r1.end_with(Instant(e1));
+    let mut r2 = RawSpan::begin_with(i2, SpanId::default(), Instant(b2), N_A, RawKind::Span);
+    r2.end_with(Instant(e2));
+    let (t1, p1, t2, p2) = (TraceId(kani::any()), SpanId(kani::any()), TraceId(kani::any()), SpanId(kani::any()));
+    let cols = [
+        SpanCollection::Owned { spans: SpanSet::Span(r1), trace_id: t1, parent_id: p1 },
+        SpanCollection::Owned {
+            spans: SpanSet::LocalSpansInner(LocalSpansInner { spans: vec![r2], end_time: Instant(now) }),
+            trace_id: t2,
+            parent_id: p2,
+        },
+    ];
+    let anchor = Anchor::new();
+    let mut recs: Vec<SpanRecord> = Vec::new();
+    let mut dang = HashMap::new();
+    postprocess_span_collection(cols, &anchor, &mut recs, &mut dang);
+    let unix = |x: u64| (1u64 << 60) - (now - x);
+    assert!(recs.len() == 2, "one record per span");
+    assert!(recs[0].trace_id == t1 && recs[0].span_id == i1 && recs[0].parent_id == p1, "thread-safe span: trace/parent not taken from its token");
+    assert!(recs[0].begin_time_unix_ns == unix(b1) && recs[0].duration_ns == e1 - b1, "thread-safe span: begin/duration wrong");
+    assert!(recs[1].trace_id == t2 && recs[1].span_id == i2 && recs[1].parent_id == p2, "local span: trace/parent not taken from its token");
+    assert!(recs[1].begin_time_unix_ns == unix(b2) && recs[1].duration_ns == e2 - b2, "local span: begin/duration wrong");
+    std::mem::forget((recs, dang));
+    kani::cover!(t1 != t2);
+}
